@@ -20,6 +20,7 @@ hold an entry for an id of the path (violation key `path-not-reclaimed/deadline`
 from __future__ import annotations
 
 import asyncio
+import itertools
 import json
 import multiprocessing
 import os
@@ -269,6 +270,218 @@ async def _scenario(loop, spec):
     return res
 
 
+# ================================================================================ circuits under construction
+def family_of(w, c, rn, hops):
+    """the ids that hang off circuit c: [(id, level, upper end, id it was extended from, lower ends)]"""
+    x0 = c.circuit_id
+    fam = {x0: [1, 0, None, []]}
+    for m in w.net.msgs:
+        if m["tag"] == "create" and m["src"] == 0 and m.get("cid") == x0 and m["dst"] not in fam[x0][3]:
+            fam[x0][3].append(m["dst"])
+    order = [x0]
+    for sg in sorted(w.segs, key=lambda s: s.seq):
+        if sg.kind != "RunExtend" or sg.args.get("index") is None:
+            continue
+        fresh = next((a[1] for a in sg.aux if a[0] == "fresh_cid"), None)
+        target = next((a[1] for a in sg.aux if a[0] == "send"), None)
+        x = sg.args["cid"]
+        if fresh is None or target is None or x not in fam:
+            continue
+        if fresh not in fam:
+            fam[fresh] = [fam[x][0] + 1, w.nid(sg.node), x, [target]]
+            order.append(fresh)
+        elif target not in fam[fresh][3]:
+            fam[fresh][3].append(target)
+    return [(rn(x), fam[x][0], fam[x][1], None if fam[x][2] is None else rn(fam[x][2]), fam[x][3]) for x in order]
+
+
+def family_c(fam):
+    return "[%s]" % "; ".join("(%s, mkF %d%%nat %s %s [%s])" % (
+        cz(x), lvl, cz(par), "None" if frm is None else "(Some %s)" % cz(frm), "; ".join(cz(t) for t in tg))
+        for x, lvl, par, frm, tg in fam)
+
+
+async def _bscenario(loop, spec):
+    from tools.vlib import reclaim_harness as rh
+    random.seed(spec.get("seed", 0) * 1000003 + 17)
+    w = rh.World(loop, settings=dict(spec.get("settings") or {}), latency=LAT)
+    w.crashed = None
+    state = {}
+    base_policy = c09.make_policy(spec, w, state)
+    starve = spec.get("starve")
+
+    def policy(info):
+        # 'inner': the answers of the nodes asked to join by a relay never arrive (the relay keeps extending with
+        # fresh ids); 'outer': nothing ever comes back to the originator
+        if starve == "inner" and info["tag"] == "created" and info["dst"] != 0:
+            return []
+        if starve == "outer" and info["tag"] in ("created", "extended") and info["dst"] == 0:
+            return []
+        return base_policy(info)
+    w.net.policy = policy
+    await w.start()
+    hops = spec["hops"]
+    await loop.advance(T_CREATE / TPS)
+    c = w.api_create(hops)
+    if c is None:
+        await w.stop()
+        return {"error": "no circuit"}
+    n0 = w.origin
+    mi, sw, d = rh.tk(n0.settings.max_time_inactive), rh.tk(5), rh.tk(n0.settings.remove_tunnel_delay)
+    nht = rh.tk(n0.settings.next_hop_timeout)
+    tries0 = int(n0.settings.circuit_timeout // n0.settings.next_hop_timeout)
+    bb = nht * (tries0 + hops - 1)
+    b_path = 2 * hops * D_LIFE + mi + sw + d
+    tq1 = T_CREATE + bb + d                     # counted from the creation of the circuit
+    t_td = None
+    ready_seen = False
+    if spec.get("k") is not None:
+        # the originator gives up (or vanishes) in the middle of the construction, after k hops
+        t_td = spec.get("t_td", c09.half_time(spec["k"]))
+        await loop.advance((t_td - T_CREATE) / TPS)
+        ready_seen = c.state == "READY"
+        if spec.get("end") == "crash":
+            w.crashed = state["crashed"] = 0
+        elif c.circuit_id in w.origin.circuits:
+            w.api_remove(w.origin, "C", c.circuit_id, {"destroy": 2, "silent": 0}[spec.get("mode", "destroy")])
+        t_td = rh.tk(loop.time())
+    t_stop = tq1 + b_path + TPS // 2
+    step = TPS
+    while rh.tk(loop.time()) < t_stop:
+        await loop.advance(min(step, t_stop - rh.tk(loop.time())) / TPS)
+        if c.state == "READY" and c.circuit_id in w.origin.circuits and not w.origin.circuits[c.circuit_id]._closing:
+            ready_seen = True
+    t_end = rh.tk(loop.time())
+    rn = c09.Renamer()
+    rn(c.circuit_id)
+    fam = family_of(w, c, rn, hops)
+    ids = set(x[0] for x in fam)
+    hist, problems = network_history(w, rn)
+    end = snapshot(w, t_end, rn)
+    names = "; ".join(cz(i) for i in range(len(w.nodes)))
+    res = {"built": True, "ready": ready_seen, "family": [(x[0], x[1], x[2]) for x in fam], "events": len(hist),
+           "deliveries": sum(1 for h in hist if h[1][0] == "deliver"), "drops": sum(1 for h in hist if h[1][0] == "drop"),
+           "dups": sum(1 for h in hist if h[1][0] == "deliver" and h[1][2]), "T": t_end, "tq": tq1,
+           "problems": problems + ["stray activity: %r" % (s,) for s in w.stray[:3]],
+           "left": holds_path(end, ids), "cases": []}
+    crashed_origin = spec.get("end") == "crash"
+    if not ready_seen:
+        # (1) from the creation of the circuit: the whole history is the run, the family starts unused
+        empty = [(i, c09.empty_state(0)) for i in range(len(w.nodes))]
+        res["cases"].append(("from-creation", "(mkBCase %s [%s] %s 0 %s %d%%nat %s %s %s\n []\n %s\n [%s]\n %s)" % (
+            c09.settings_c(c09.node_settings(n0)), names, family_c(fam), cz(rn(c.circuit_id)), hops, cz(tq1),
+            cz(D_LIFE), cz(t_end), nodes_c(empty), ";\n  ".join(obs_c(*h) for h in hist), nodes_c(end))))
+    if t_td is not None and not ready_seen and not crashed_origin and spec.get("also_quiet", True):
+        # (2) from the moment the originator gave up, with whatever the handshake left behind
+        mid = snapshot(w, t_td, rn)
+        before = [h for h in hist if h[0] <= t_td]
+        after = [h for h in hist if h[0] > t_td]
+        res["held_at_tq"] = len(holds_path(mid, ids))
+        res["cases"].append(("from-teardown", "(mkBCase %s [%s] %s 0 %s %d%%nat %s %s %s\n [%s]\n %s\n [%s]\n %s)" % (
+            c09.settings_c(c09.node_settings(n0)), names, family_c(fam), cz(rn(c.circuit_id)), hops, cz(t_td),
+            cz(D_LIFE), cz(t_end), ";\n  ".join(obs_c(*h) for h in before), nodes_c(mid),
+            ";\n  ".join(obs_c(*h) for h in after), nodes_c(end))))
+    await w.stop()
+    return res
+
+
+def run_bscenario(spec):
+    from tools.vlib.vtime import VLoop, patched_time
+    loop = VLoop()
+    asyncio.set_event_loop(loop)
+    try:
+        with patched_time(loop):
+            return loop.run_until_complete(_bscenario(loop, spec))
+    finally:
+        try:
+            loop.run_until_complete(asyncio.sleep(0))
+        except Exception:   # noqa
+            pass
+        loop.close()
+
+
+def _bjob(job):
+    """a base building scenario and, if asked, its variants with every small subset of the handshake messages of
+    the fault-free run lost, and single duplications of the answers"""
+    out = []
+    try:
+        base = job["base"]
+        r0 = run_bscenario(dict(base, faults=[]))
+        out.append((dict(base, faults=[]), r0))
+        if job.get("enumerate") and not r0.get("error"):
+            # handshake messages of the fault-free run, from the network log of a second, silent run
+            msgs = _handshake_messages(dict(base, faults=[]))
+            variants = []
+            for n in range(1, job["upto"] + 1):
+                for sub in itertools.combinations(msgs, n):
+                    if n >= 2 and job.get("pair_sample") and (c09._stable_hash(sub) % job["pair_sample"]) != 0:
+                        continue
+                    variants.append([c09.fault_of(m) for m in sub])
+            for m in msgs:
+                if m[0] in ("created", "extended", "extend", "create"):
+                    variants.append([c09.fault_of(m, "dup", 5 * LAT)])
+                    if job.get("delays"):
+                        variants.append([c09.fault_of(m, "delay", DMAX - 1)])
+            for fs in variants:
+                spec = dict(base, faults=fs, also_quiet=(len(fs) <= 1))
+                out.append((spec, run_bscenario(spec)))
+    except Exception:   # noqa
+        import traceback
+        out.append((job["base"], {"error": "scenario crashed: %s" % traceback.format_exc()[-1500:]}))
+    return out
+
+
+def _handshake_messages(spec):
+    from tools.vlib.vtime import VLoop, patched_time
+
+    async def go(loop):
+        from tools.vlib import reclaim_harness as rh
+        random.seed(spec.get("seed", 0) * 1000003 + 17)
+        w = rh.World(loop, settings=dict(spec.get("settings") or {}), latency=LAT, record=False)
+        w.crashed = None
+        w.net.policy = c09.make_policy(spec, w, {})
+        await w.start()
+        await loop.advance(T_CREATE / TPS)
+        w.api_create(spec["hops"])
+        t_td = c09.half_time(spec["k"]) if spec.get("k") is not None else 2 * TPS
+        await loop.advance((t_td + 4 * LAT - T_CREATE) / TPS)
+        msgs = [(m["tag"], m["src"], m["dst"], m["occ"]) for m in w.net.msgs
+                if m["tag"] in ("create", "created", "extend", "extended")]
+        await w.stop()
+        return msgs
+    loop = VLoop()
+    asyncio.set_event_loop(loop)
+    try:
+        with patched_time(loop):
+            return loop.run_until_complete(go(loop))
+    finally:
+        loop.close()
+
+
+def bscenarios(quick, seed0=0):
+    jobs = []
+    for h in (1, 2, 3):
+        # the originator gives up after k hops: with a destroy, silently, or by vanishing
+        for k in range(h):
+            for mode in ("destroy", "silent"):
+                base = {"hops": h, "k": k, "mode": mode, "seed": seed0 + 7000 + len(jobs), "family": "build-teardown"}
+                jobs.append({"base": base, "enumerate": True, "upto": 2, "delays": not quick,
+                             "pair_sample": (6 if h == 3 else 3) if quick else None})
+            # ... or it vanishes (every message from and to it is lost) in the middle of the construction
+            jobs.append({"base": {"hops": h, "k": k, "end": "crash", "seed": seed0 + 7300 + len(jobs),
+                                  "family": "build-crash"}})
+        # nobody gives up, but the answers never arrive: the originator retries with other candidates until the
+        # retry budget of the code is spent
+        for starve in (("outer",) if h == 1 else ("outer", "inner")):
+            jobs.append({"base": {"hops": h, "starve": starve, "seed": seed0 + 7500 + len(jobs), "family": "build-starved"}})
+            for k in range(0 if quick else 2):
+                jobs.append({"base": {"hops": h, "starve": starve, "seed": seed0 + 7600 + 10 * len(jobs) + k,
+                                      "family": "build-starved",
+                                      "random": {"tags": ["create", "extend", "created", "extended", "ping", "pong"],
+                                                 "drop": 0.15, "dup": 0.3, "delay": 0.3}}})
+    return jobs
+
+
 def run_scenario(spec):
     from tools.vlib.vtime import VLoop, patched_time
     loop = VLoop()
@@ -377,10 +590,76 @@ def stage(ctx, have_model=True):
             ctx.broke("path correspondence: network model and implementation disagree (%s)" % explain(code),
                       {"spec": owners[i], "code": code})
         ctx.coverage["traces_validated_against_impl"] += len(cases) - len(mism)
+    stage_building(ctx, have_model, procs)
+    return stats
+
+
+def stage_building(ctx, have_model, procs):
+    """circuits under construction: hypotheses and conclusion of path_bounded_reclaim_building_partial on observed
+    histories (from the creation of the circuit, and from the moment the originator gave up)"""
+    jobs = bscenarios(ctx.quick, 10000 * (ctx.seed - 1))
+    with multiprocessing.get_context("fork").Pool(procs) as pool:
+        results = pool.map(_bjob, jobs, chunksize=1)
+    cases, owners = [], []
+    stats = {"scenarios": 0, "became_ready_out_of_scope": 0, "events": 0, "deliveries": 0, "duplicates": 0, "dropped": 0,
+             "family_ids": 0, "largest_family": 0, "cases_from_creation": 0, "cases_from_teardown": 0}
+    for jr in results:
+        for spec, r in jr:
+            stats["scenarios"] += 1
+            if r.get("error"):
+                ctx.broke("building harness: %s" % r["error"][:300], spec)
+                continue
+            key = json.dumps(spec, sort_keys=True, default=str)
+            ctx.count("build/" + key, nontrivial=len(r["family"]) > 1 or r["deliveries"] > 2)
+            stats["became_ready_out_of_scope"] += bool(r["ready"])
+            stats["events"] += r["events"]
+            stats["deliveries"] += r["deliveries"]
+            stats["duplicates"] += r["dups"]
+            stats["dropped"] += r["drops"]
+            stats["family_ids"] += len(r["family"])
+            stats["largest_family"] = max(stats["largest_family"], len(r["family"]))
+            for pr in r["problems"]:
+                ctx.broke("building harness bookkeeping: %s" % pr, spec)
+            if r["left"] and not r["ready"]:
+                ctx.violation("build-not-reclaimed/deadline",
+                              "entries for ids of a circuit that never became ready left at creation + B_build: %r "
+                              "(tq=%d, T=%d)" % (r["left"][:4], r["tq"], r["T"]), {"spec": spec, "building": True})
+            for name, c in r["cases"]:
+                stats["cases_" + name.replace("-", "_")] += 1
+                cases.append(c)
+                owners.append((name, spec))
+            if len(ctx.coverage["samples"]) < 8 and len(r["family"]) > 2:
+                ctx.sample({"spec": spec, "family": r["family"], "events": r["events"], "deliveries": r["deliveries"],
+                            "tq": r["tq"], "T": r["T"]})
+    ctx.extra["building_stats"] = stats
+    if have_model and cases:
+        mism, errs = coqrun.eval_mismatches(IMPORTS, "run_bcase", "Z.eqb", [(c, "0") for c in cases],
+                                            os.path.join(ctx.scratch, "buildnet"), shard=1, jobs=procs, max_bytes=400000)
+        for e in errs[:3]:
+            ctx.broke("building correspondence: Coq evaluation failed", e)
+        for i in mism[:5]:
+            out = coqrun.eval_terms(IMPORTS, ["run_bcase %s" % cases[i]], os.path.join(ctx.scratch, "buildnet"))
+            m = __import__("re").search(r"=\s*(\d+)", out)
+            code = int(m.group(1)) if m else -1
+            ctx.broke("building correspondence (%s): network model and implementation disagree (%s)" % (
+                owners[i][0], explain(code)), {"spec": owners[i][1], "code": code})
+        ctx.coverage["traces_validated_against_impl"] += len(cases) - len(mism)
     return stats
 
 
 def replay_spec(spec):
+    if "starve" in spec or "k" in spec:
+        r = run_bscenario(spec)
+        print("spec:", json.dumps(spec, default=str))
+        if r.get("error"):
+            print("  error:", r["error"])
+            return 1
+        print("  family=%s ready=%s tq=%d T=%d events=%d" % (r["family"], r["ready"], r["tq"], r["T"], r["events"]))
+        if r["left"] and not r["ready"]:
+            print("  STILL FAILS build-not-reclaimed/deadline :: %r" % (r["left"],))
+            return 1
+        print("  holds now")
+        return 0
     r = run_scenario(spec)
     print("spec:", json.dumps(spec, default=str))
     if r.get("error"):
